@@ -378,7 +378,7 @@ def gen_states(ctx, module, cfg, coverage=True, timeout=900, dot=False):
     If the run violates a design property it is recorded as a violation of the check."""
     from tlaval import read_dump, read_dot
 
-    base = os.path.join(ctx.scratch, f"dump_{module}_{cfg}".replace(".", "_"))
+    base = os.path.join(ctx.scratch, f"dump_{module}_{os.path.basename(cfg)}".replace(".", "_"))
     extra = ["-dump", "dot,actionlabels", base + ".dot"] if dot else ["-dump", base]
     r = ctx.tlc(module, cfg, extra=extra, coverage=coverage, timeout=timeout)
     if not r.ok:
